@@ -1,0 +1,24 @@
+//go:build verif
+
+package node
+
+import "github.com/paulsonkoly/calc/vm"
+
+// VerifReportError exposes reportError to verification harnesses.
+func VerifReportError(err ParserError, line string) { reportError(err, line) }
+
+// VerifProcessInput exposes processInput to verification harnesses.
+func VerifProcessInput(input string, p Parser, vm *vm.Type, doOut bool) {
+	processInput(input, p, vm, doOut)
+}
+
+// VerifLineReader adapts a function to the unexported lineReader interface.
+type VerifLineReader struct{ Next func() (string, error) }
+
+func (r VerifLineReader) read() (string, error) { return r.Next() }
+
+// Close implements io.Closer.
+func (r VerifLineReader) Close() error { return nil }
+
+// VerifLoop runs the read-eval loop over the given line source.
+func VerifLoop(r VerifLineReader, p Parser, vm *vm.Type, doOut bool) { Loop(r, p, vm, doOut) }
